@@ -126,7 +126,9 @@ InfoOf(cfg) == [versions |-> <<"FIDO_2_0", "U2F_V2">>,
                 rk |-> cfg.disc # "nondisc", up |-> cfg.upCap,
                 uv |-> CASE cfg.uvCap = "configured" -> "true" [] cfg.uvCap = "unconfigured" -> "false" [] OTHER -> "absent",
                 plat |-> FALSE, clientPin |-> "absent",
-                transports |-> <<"internal", "hybrid">>, maxMsgSize |-> FALSE, pinProtocols |-> FALSE]
+                \* the transports the authenticator was built with (cfg.tr): the default pair, none, or USB only
+                transports |-> CASE cfg.tr = "empty" -> <<>> [] cfg.tr = "usb" -> <<"usb">> [] OTHER -> <<"internal", "hybrid">>,
+                maxMsgSize |-> FALSE, pinProtocols |-> FALSE]
 
 \* the part of an End event layer B predicts (the harness adds observation-only fields)
 EndErr(code) ==
